@@ -105,6 +105,7 @@ Fixpoint wave (p : pt) (rho : env) (drop : list ident) {struct p} : bool :=
   | Par inner _ => wave inner rho drop
   | Ari inner _ _ => wave inner rho drop
   | Map inner m _ => wave inner (map_env rho m) drop
+  | Ren inner r => wave inner rho (ren_drop r drop)
   | _ => false
   end.
 
@@ -124,6 +125,7 @@ Fixpoint obs_build (p : pt) (rho : env) (drop : list ident) {struct p} : list ob
   | Ari inner sa sc =>
       obs_build inner rho drop ++ (if wave inner rho drop then obs_r rho (sa ++ kept drop sc) else [])
   | Map inner m cs => obs_c rho cs ++ obs_build inner (map_env rho m) drop
+  | Ren inner r => obs_build inner rho (ren_drop r drop)
   | _ => []
   end.
 
@@ -134,6 +136,7 @@ Fixpoint obs_meas (p : pt) (rho : env) {struct p} : list ob :=
   | AMC subs _ ms => obs_m rho ms ++ flat_map (fun q => obs_meas q rho) subs
   | Ari inner _ _ => obs_meas inner rho
   | Map inner m _ => obs_meas inner (map_env rho m)
+  | Ren inner _ => obs_meas inner rho
   | _ => []
   end.
 
@@ -163,6 +166,7 @@ Fixpoint obs (p : pt) (rho : env) (drop : list ident) {struct p} : list ob :=
       | None => []
       end
   | Map inner m cs => obs_c rho cs ++ obs inner (map_env rho m) drop
+  | Ren inner r => obs inner rho (ren_drop r drop)
   end.
 
 (* is anything played (given that all obligations hold) *)
@@ -180,6 +184,7 @@ Fixpoint plays (p : pt) (rho : env) (drop : list ident) {struct p} : bool :=
       | None => false
       end
   | Map inner m _ => plays inner (map_env rho m) drop
+  | Ren inner r => plays inner rho (ren_drop r drop)
   end.
 
 (* the visible constraints with the environment their node sees; the needed reads *)
@@ -234,6 +239,7 @@ Fixpoint atomic (p : pt) : bool :=
   | AMC subs _ _ => forallb atomic subs
   | Ari inner _ _ => atomic inner
   | Map inner _ _ => atomic inner
+  | Ren inner _ => atomic inner
   | _ => false
   end.
 
@@ -251,6 +257,7 @@ Fixpoint wf (p : pt) : Prop :=
   | Rep body _ _ _ => wf body
   | For body _ _ _ _ _ _ => wf body
   | Map inner m _ => subset (pnames inner) (map fst m) = true /\ wf inner
+  | Ren inner _ => wf inner
   end.
 
 (* ---- the known deviation of the code: FunctionPT substitutes symbolically, a name without value that cancels in the
